@@ -3,6 +3,7 @@ import AscentVerif.Model.Engine
 import AscentVerif.Model.StdInterp
 import AscentVerif.Model.Hir
 import AscentVerif.Model.EnginePhys
+import AscentVerif.Proofs.PlanSwapBody
 namespace AscentVerif.Driver
 open AscentVerif AscentVerif.Std AscentVerif.Engine
 
@@ -256,6 +257,11 @@ def handleEng (s : EngStore) : List Sexp → Option (EngStore × String)
   | [.atom "mir", .atom pid] => do
     let pd ← (s.progs.find? (·.1 == pid)).map (·.2)
     some (s, "mir " ++ mirCanon pd.prog pd.order)
+  | [.atom "planok", .atom pid] => do
+    -- the hypotheses of `runPhys_eq_leastModel` (Props/C01Phys.lean) on this program: usable plan, desugared and well-scoped rules
+    let pd ← (s.progs.find? (·.1 == pid)).map (·.2)
+    let p := pd.prog
+    some (s, s!"planok={Phys.planOk stdVars p (Phys.ixSetsOf stdVars p)} desugared={p.rules.all fun r => Hir.Desugared stdVars r} wellscoped={p.rules.all fun r => Plan.WellScoped stdVars r}")
   | [.atom "order", .atom pid] => do
     let pd ← (s.progs.find? (·.1 == pid)).map (·.2)
     some (s, "order " ++ " ".intercalate (pd.order.map fun c => "[" ++ ",".intercalate (c.map toString) ++ "]"))
